@@ -4,3 +4,6 @@ import BalmProofs.Props.C12
 #print axioms Balm.Impl.mem_reachSet
 #print axioms Balm.Impl.attractors_sound
 #print axioms Balm.Impl.attractors_complete
+#print axioms Balm.Impl.symbolicSeeds_spec
+#print axioms Balm.Impl.nodeSeeds_spec
+#print axioms Balm.Impl.reaches_attr
